@@ -25,6 +25,19 @@ pub trait Env: Sync {
     fn after_unlock(&self, _lock: usize, _exclusive: bool, _panicking: bool) {}
     /// A lazily initialised static is being dereferenced.
     fn lazy_force(&self, _lazy: usize, _initialised: bool) {}
+    /// Does the environment take over condition-variable waits of the calling
+    /// thread (so that the thread never really blocks)?
+    fn cv_managed(&self) -> bool {
+        false
+    }
+    /// The calling thread is about to wait on `cv` (called while it still
+    /// holds the mutex: registering before releasing keeps wake-ups from
+    /// getting lost, as the real primitive guarantees).
+    fn cv_prepare_wait(&self, _cv: usize) {}
+    /// Returns when the calling thread has been notified on `cv`.
+    fn cv_block(&self, _cv: usize) {}
+    /// `notify_one` / `notify_all` on `cv`.
+    fn cv_notify(&self, _cv: usize, _all: bool) {}
     /// A named point inside the provider code where a simulator may switch
     /// threads (no effect otherwise).
     fn point(&self, _name: &'static str) {}
@@ -89,6 +102,7 @@ pub mod sync {
     pub struct MutexGuard<'a, T> {
         inner: Option<std::sync::MutexGuard<'a, T>>,
         id: usize,
+        mutex: &'a Mutex<T>,
     }
     impl<T> Mutex<T> {
         pub const fn new(t: T) -> Self {
@@ -103,11 +117,11 @@ pub mod sync {
             match self.inner.lock() {
                 Ok(g) => {
                     env().after_lock(id, true, true, false);
-                    Ok(MutexGuard { inner: Some(g), id })
+                    Ok(MutexGuard { inner: Some(g), id, mutex: self })
                 }
                 Err(p) => {
                     env().after_lock(id, true, true, true);
-                    Err(PoisonError::new(MutexGuard { inner: Some(p.into_inner()), id }))
+                    Err(PoisonError::new(MutexGuard { inner: Some(p.into_inner()), id, mutex: self }))
                 }
             }
         }
@@ -117,13 +131,14 @@ pub mod sync {
             match self.inner.try_lock() {
                 Ok(g) => {
                     env().after_lock(id, true, true, false);
-                    Ok(MutexGuard { inner: Some(g), id })
+                    Ok(MutexGuard { inner: Some(g), id, mutex: self })
                 }
                 Err(TryLockError::Poisoned(p)) => {
                     env().after_lock(id, true, true, true);
                     Err(TryLockError::Poisoned(PoisonError::new(MutexGuard {
                         inner: Some(p.into_inner()),
                         id,
+                        mutex: self,
                     })))
                 }
                 Err(TryLockError::WouldBlock) => {
@@ -178,6 +193,69 @@ pub mod sync {
             // unwinding), then tell the environment.
             self.inner = None;
             env().after_unlock(self.id, true, std::thread::panicking());
+        }
+    }
+
+    /// `std::sync::Condvar` for the reporting [`Mutex`]. Under an environment
+    /// that manages waits the thread never really blocks: it registers as a
+    /// waiter while it still holds the mutex, releases it, and is handed back
+    /// to the environment until somebody notifies; otherwise this is the std
+    /// primitive. (`wait_timeout*` are deliberately not offered.)
+    #[derive(Debug, Default)]
+    pub struct Condvar {
+        inner: std::sync::Condvar,
+    }
+    impl Condvar {
+        pub const fn new() -> Self {
+            Self { inner: std::sync::Condvar::new() }
+        }
+        fn id(&self) -> usize {
+            self as *const _ as *const u8 as usize
+        }
+        pub fn wait<'a, T>(&self, guard: MutexGuard<'a, T>) -> LockResult<MutexGuard<'a, T>> {
+            if env().cv_managed() {
+                let cv = self.id();
+                let mutex = guard.mutex;
+                env().cv_prepare_wait(cv);
+                drop(guard);
+                env().cv_block(cv);
+                mutex.lock()
+            } else {
+                let mut guard = guard;
+                let (id, mutex) = (guard.id, guard.mutex);
+                let std_guard = match guard.inner.take() {
+                    Some(g) => g,
+                    None => unreachable!(),
+                };
+                core::mem::forget(guard);
+                match self.inner.wait(std_guard) {
+                    Ok(g) => Ok(MutexGuard { inner: Some(g), id, mutex }),
+                    Err(p) => {
+                        Err(PoisonError::new(MutexGuard { inner: Some(p.into_inner()), id, mutex }))
+                    }
+                }
+            }
+        }
+        pub fn wait_while<'a, T, F>(
+            &self,
+            mut guard: MutexGuard<'a, T>,
+            mut condition: F,
+        ) -> LockResult<MutexGuard<'a, T>>
+        where
+            F: FnMut(&mut T) -> bool,
+        {
+            while condition(&mut *guard) {
+                guard = self.wait(guard)?;
+            }
+            Ok(guard)
+        }
+        pub fn notify_one(&self) {
+            env().cv_notify(self.id(), false);
+            self.inner.notify_one();
+        }
+        pub fn notify_all(&self) {
+            env().cv_notify(self.id(), true);
+            self.inner.notify_all();
         }
     }
 
